@@ -29,7 +29,7 @@ PROPS["C01"] = dict(
     instrument=ENGINE_FILES,  # one instrumented build serves every check; with no active run the seams are pass-through
     budget=dict(quick=25, thorough=600),
     rule="seeded histories of 4-90 store operations (NewGraph/Graph/DeleteGraph/GraphNames, AddTriples/RemoveTriples batches with duplicates, overlaps, "
-         "empty batches, stale handles of dropped graphs) over 1-3 graphs and a universe of 8-20 triples (plain values; in "rich" cases also one instant in two zones, int64 extremes and neighbours beyond 2^53, "
+         "empty batches, stale handles of dropped graphs) over 1-3 graphs and a universe of 8-20 triples (plain values; in rich cases also one instant in two zones, int64 extremes and neighbours beyond 2^53, "
          "floats closer than 1e-6, +Inf, empty identifiers and texts, and anchors at boundary instants: Go's zero time, the Unix epoch, the nanosecond before it, the end of year 9999); after EVERY operation the complete observable state "
          "(call outcome, GraphNames, full listing as a multiset of structural keys, Exist of every universe triple, every other graph) is compared with a "
          "reference map name->set. A case is non-trivial when at least one non-empty batch was applied and observed afterwards; distinct = distinct "
@@ -80,7 +80,7 @@ PROPS["C19"] = dict(
          "through 1-3 handles of one graph obtained from memoization.New(memory.NewStore()); every read is repeated on the wrapped store and must deliver "
          "the same sequence. (b) concurrent: one writer (1-3 AddTriples/RemoveTriples batches) and one or two readers (2-4 repeated reads each, through the "
          "writer's handle or their own) under the seeded scheduler with yield points before every statement of the instrumented memoization and memory "
-         "copies; a read must answer like the wrapped store in one of the states it may observe (real-time bounds from the event sequence); a third of these runs are "hot spot" runs: every reader "
+         "copies; a read must answer like the wrapped store in one of the states it may observe (real-time bounds from the event sequence); a third of these runs are hot-spot runs: every reader "
          "repeats one read about a triple the writer adds or removes, through the writer's handle. (c) faulty wrapped driver (30% of the sequential cases): a simulated driver sits between the "
          "memoizer and the memory store and fails the next call of chosen operations (write refused; lookup fails before the first element or after j elements; Exist fails): the wrapper must "
          "report the failure, may have delivered only a prefix of the answer, and every later read must again equal the wrapped store. "
